@@ -463,6 +463,9 @@ func encryptFrags(log *slog.Logger, cfg *ResponseConfig, drmCfg *drm.DrmConfig,
 	var key, kid, iv []byte
 	var scheme string
 	ed := rp.encData
+	if ed == nil {
+		return fmt.Errorf("representation %s cannot be encrypted (pre-encrypted or codec without encryption support)", rp.ID)
+	}
 	switch cfg.DRM {
 	case "eccp-cenc", "eccp-cbcs":
 		scheme = strings.TrimPrefix(cfg.DRM, "eccp-")
